@@ -47,3 +47,26 @@ class StringStub:
 
     def string(self, *args):
         return self._s
+
+
+class ContextStub:
+    """A build context: builtins by subscription, `build` and `env` as attributes."""
+    def __init__(self, fns, build, env):
+        self._fns, self.build, self.env = fns, build, env
+
+    def __getitem__(self, key):
+        return self._fns[key]
+
+
+class CacheMapStub:
+    """find cache: subscription by filter (KeyError when absent) and recorded add()."""
+    def __init__(self, entry, calls):
+        self._entry, self.calls = entry, calls
+
+    def __getitem__(self, key):
+        if self._entry is None:
+            raise KeyError(key)
+        return self._entry
+
+    def add(self, *args):
+        self.calls.append(args)
